@@ -163,11 +163,18 @@ def run_shard(args):
             w.mkcol(colpath, "calendar")
             fsp = w.fs_path(colpath)
             rows = c11.row_objects()
+            plain = bool(args.get("paranoid"))
+            if plain:
+                # --paranoid servers turn every index/naive disagreement into an AssertionError; keep the
+                # *known* disagreement mechanisms (TZID values, FREEBUSY periods, several components, param
+                # keys, odd top-level filters) out of these shards so that any assertion is news
+                rows = [r for r in rows if not r[0].endswith("/tzid") and not r[0].startswith("VFREEBUSY")]
             allrows = list(rows)
             rng.shuffle(rows)
             objs = [("o%d.ics" % i, label, c11.build_object(label, ct, lines, vtz, i + 1000 * seq)) for i, (label, ct, lines, vtz) in enumerate(rows[:18])]
-            objs += [(n, l, b) for (n, l, b) in c11.gen_objects(rng, 10)]
-            objs += extra_objects(rng)
+            objs += [(n, l, b) for (n, l, b) in c11.gen_objects(rng, 10, plain=plain)]
+            if not plain:
+                objs += extra_objects(rng)
             live = {}
             for name, label, body in objs:
                 s, r = w.call("put", "PUT", w.url(colpath, name), [("Content-Type", "text/calendar")], body, record=False)
@@ -185,6 +192,8 @@ def run_shard(args):
                     w.fe.app.backend.index_threshold = thr
                     w.fe.app.backend.paranoid = bool(args.get("paranoid"))
             pool = filter_pool(rng, rng.randint(3, 6), None)
+            if plain:
+                pool = [f for f in filter_pool(rng, 40, None) if "VFREEBUSY" not in f[2] and "/tz" not in f[2] and "param-" not in f[2] and "top-level" not in f[2]][:rng.randint(3, 6)]
             reps = {}
             nq = 0
             while nq < args["queries"]:
